@@ -9,6 +9,8 @@ import Driver.AffDrv
 import Driver.CVDrv
 import Driver.DequeDrv
 import Driver.BarrierDrv
+import Driver.LatchDrv
+import Driver.OnceDrv
 /-! `driver <model>`: reads harness output (cases) on stdin, prints one verdict line per case. -/
 open Driver
 
@@ -24,6 +26,9 @@ def dispatch (model : String) (c : Case) : String :=
   | "cv" => CVDrv.runCase c
   | "deque" => DequeDrv.runCase c
   | "barrier" => BarrierDrv.runCase c
+  | "latch" => LatchDrv.runCase c
+  | "once" => OnceDrv.runCase c
+  | "c09l" => if c.get "kind" == "latch" then LatchDrv.runCase c else OnceDrv.runCase c
   | _ => s!"case {c.id} reject 0 unknown-model-{model}"
 
 def main (args : List String) : IO UInt32 := do
